@@ -14,8 +14,9 @@ RULE = ("Hypothesis draws configurations from a pool of 5 domain labels and 4 us
         "trailing @, several @, one or more %, leading-dot domains, 8-bit). Non-trivial = at least two rules apply to one recipient (listed in "
         "locals AND virtualdomains, user entry AND wildcard, ...) or a percent-hack step fires; distinct = scenario digest.")
 ASSUMPTIONS = ["control files with duplicate keys are outside the domain (property text)",
-               "an address with several '@' on which the percent hack fires is unspecified (which '@' delimits the domain of the rewritten address): "
-               "only conservation (appears exactly once, nothing else appears) is checked there, counted as slack"]
+               "user%fqdn@domain where 'fqdn' itself contains an '@' and the rewritten address would qualify for another percent-hack step by its "
+               "last-'@' domain: whether the hack repeats is unspecified; only conservation (appears exactly once, nothing else appears) is "
+               "checked there, counted as slack. Every other address with several '@' is judged in full (domain = text after the last '@')"]
 
 # the last label carries every letter of the alphabet: "all matching ignores case" must hold for each of the 26 (added after seeded change C10-E)
 LABELS = ["a.example", "b.example", "sub.a.example", "c.test", "deep.sub.a.example", "quick-brown-fox.jumps-over.lazy-dog.vwxyz.test"]
@@ -48,11 +49,18 @@ def route(addr, cfg):
         dom = lower(addr[at + 1:])
         local = addr[:at]
         if dom in cfg["percenthack"] and b"%" in local:
-            if b"@" in local:
-                slack = True
             j = local.rfind(b"%")
             addr = local[:j] + b"@" + local[j + 1:]
             hacked = True
+            if b"@" in local[j + 1:]:
+                # user%fqdn@domain with an '@' inside "fqdn": the rewritten address is user@fqdn all the same and its domain is what follows
+                # its last '@'. Open is only whether the hack applies AGAIN (the documents speak of the rewritten address's domain, the code
+                # looks at everything behind the new '@'): where that matters the case is slack, otherwise it is judged like any other
+                # (narrowed after seeded change C10-K: the whole family had been slack)
+                at2 = addr.rfind(b"@")
+                if lower(addr[at2 + 1:]) in cfg["percenthack"] and b"%" in addr[:at2]:
+                    slack = True
+                break
         else:
             break
     at = addr.rfind(b"@")
